@@ -1,4 +1,5 @@
 import GoLevel.Proofs.Score
+import GoLevel.Proofs.Seek
 import GoLevel.Props.C06
 /-!
 # C06 / C09 — which level a version wants compacted (`version.computeCompaction`, `needCompaction`)
@@ -150,9 +151,56 @@ example :
 example :
     computeCompaction ⟨1, fun _ => 10⟩ ⟨[[tb 9 1 2], [tb 5 1 2], [tb 1 1 9]]⟩ = some (0, ⟨1, 1⟩) := by decide
 
+/-! ## the seek-compaction candidate (`version.get`: `tset`, `tseek`, `v.cSeek`) -/
+
+/-- **`seek_charge_in_version`**.  The table a lookup charges a seek to — the first table of the version it consulted,
+when it had to consult a second one — is a table of that version at the level recorded with it, for every version,
+transaction table set, key and sequence number.  This is the premise `hseek` of `C06.pick_compaction_inputs_closed`
+(`v.cSeek` is only ever set by a lookup on `v` itself). -/
+theorem seek_charge_in_version (c : UCmp) (aux : Level) (v : Version) (k : Bytes) (s : Nat) (l : Nat) (t : Table)
+    (h : Seek.seekCharge c aux v k s = some (l, t)) :
+    t ∈ v.lvl l ∧ 2 ≤ (Seek.visits c aux v k s).length ∧ (Seek.visits c aux v k s).head? = some (l, t) := by
+  unfold Seek.seekCharge at h
+  cases hv : Seek.visits c aux v k s with
+  | nil => rw [hv] at h; cases h
+  | cons a rest =>
+    rw [hv] at h
+    cases rest with
+    | nil => cases h
+    | cons b rest' =>
+      simp only [Option.some.injEq] at h
+      subst h
+      refine ⟨Seek.visits_mem c aux v k s l t (by rw [hv]; simp), by simp, rfl⟩
+
+/-- **`seek_pick_inputs_closed`**.  A seek-based pick whose candidate was recorded by a lookup on the same version
+builds a compaction with closed inputs: `C06.pick_compaction_inputs_closed` without its premise on `cSeek`. -/
+theorem seek_pick_inputs_closed {c : UCmp} (hl : LawfulUCmp c) (lim : Limits) (v : Version) (hv : v.wfB c = true)
+    (aux : Level) (k : Bytes) (s : Nat) (l : Nat) (t : Table)
+    (hcharge : Seek.seekCharge c aux v k s = some (l, t)) (compPtrs : List (Option IKey)) (cl : Nat) :
+    ∃ cm, pickCompaction c lim v ⟨false, cl, compPtrs, some (l, t)⟩ = some cm ∧ cm.sourceLevel = l ∧
+      (∀ x ∈ cm.s0, x ∈ v.lvl l) ∧ (∀ x ∈ cm.s1, x ∈ v.lvl (l + 1)) ∧ t ∈ cm.s0 ∧
+      (∀ x ∈ v.lvl (l + 1), x.overlapsRange c cm.imin.ukey cm.imax.ukey = true ↔ x ∈ cm.s1) := by
+  have hmem := (seek_charge_in_version c aux v k s l t hcharge).1
+  obtain ⟨cm, hcm, hsrc, h0, h1, ht0, _, hall, _⟩ :=
+    C06.pick_compaction_inputs_closed hl lim v hv ⟨false, cl, compPtrs, some (l, t)⟩
+      (by intro lvl t' he; cases he; exact hmem) l [t] rfl
+  exact ⟨cm, hcm, hsrc, h0, h1, ht0 t (by simp), hall⟩
+
+/-- non-vacuity: key `[3]` lies in the ranges of both level-0 tables and is held by neither (entries `[1],[5]` /
+`[2],[4]`): the first one consulted is charged; key `[1]` is found in the first table consulted after one more
+level-0 visit; a key outside every range consults nothing -/
+example :
+    let v : Version := ⟨[[tb 7 1 5, tb 6 2 4], [tb 3 1 9]]⟩
+    (Seek.visits bytewise [] v [3] 9).map (fun p => (p.1, p.2.num)) = [(0, 7), (0, 6), (1, 3)] ∧
+    (Seek.seekCharge bytewise [] v [3] 9).map (fun p => (p.1, p.2.num)) = some (0, 7) ∧
+    (Seek.visits bytewise [] v [1] 9).map (fun p => (p.1, p.2.num)) = [(0, 7)] ∧
+    Seek.seekCharge bytewise [] v [1] 9 = none ∧
+    Seek.visits bytewise [] v [10] 9 = [] := by decide
+
 end GoLevel.C06Score
 
 def GoLevel.C06Score.theorems : List String :=
   ["GoLevel.C06Score.computed_level_is_first_max", "GoLevel.C06Score.score_ge1_iff_some_level_over",
    "GoLevel.C06Score.score_pick_has_inputs", "GoLevel.C06Score.paused_writer_waits_for_real_work",
-   "GoLevel.C06Score.pause_below_trigger_waits_for_nothing"]
+   "GoLevel.C06Score.pause_below_trigger_waits_for_nothing", "GoLevel.C06Score.seek_charge_in_version",
+   "GoLevel.C06Score.seek_pick_inputs_closed"]
